@@ -87,8 +87,8 @@ from .ast import (
 )
 
 def quote(s):
-    assert s.replace('_', '').replace('-', '').replace('.', '').replace('/', '').isalnum(), \
-        'Only use quote() with names or IDs in Stone.'
+    # Mostly used with names or IDs in Stone, but doc references can carry
+    # arbitrary text, so no assumption is made on the characters.
     return "'%s'" % s
 
 def parse_data_types_from_doc_ref(api, doc, namespace_context, ignore_missing_entries=False):
@@ -531,6 +531,10 @@ class IRGenerator:
 
         params = []
         for param in item.params:
+            if isinstance(param, AstVoidField):
+                raise InvalidSpec(
+                    'Parameter {} must have a type.'.format(quote(param.name)),
+                    param.lineno, param.path)
             if param.annotations:
                 raise InvalidSpec(
                     'Annotations cannot be applied to parameters of annotation types',
